@@ -416,6 +416,16 @@ func (env *Env) evalIndex(e *EIndex) TV {
 }
 
 func valEq(a, b Val) string {
+	if a.K == VPtr && b.K == VPtr && (!ptrHasRef(a.P) || !ptrHasRef(b.P)) {
+		// interior pointers: equal iff same shape and same root
+		if a.P.Root != b.P.Root || a.P.Path != b.P.Path || a.P.GName != b.P.GName || typeKey(a.P.Base) != typeKey(b.P.Base) {
+			return "false"
+		}
+		if a.P.Root == "elem" {
+			return mkAnd(mkEq(a.P.Ref, b.P.Ref), mkEq(a.P.Idx, b.P.Idx))
+		}
+		return mkEq(a.P.Ref, b.P.Ref)
+	}
 	// nil comparisons for composite kinds
 	fa, fb := flatten(a), flatten(b)
 	if len(fa) != len(fb) {
